@@ -207,8 +207,9 @@ def dataset(draw, max_inputs=4, min_inputs=1, clim="maybe", flavor="det", core_m
                 qs.append(pa)
             d["qs"] = qs
         if members:
-            d["members"] = members
-            d["ens"] = masked(draw, shape + (members,), val(), draw(modes))
+            own_m = draw(st.integers(1, max_members)) if per_input_layout else members   # member counts may differ between files
+            d["members"] = own_m
+            d["ens"] = masked(draw, shape + (own_m,), val(), draw(modes))
         if other_names and not is_clim:
             d["other"] = dict((nm, masked(draw, shape, val(), draw(modes))) for nm in other_names)
         return d
